@@ -33,9 +33,9 @@ pub fn iri_domain(f: Family, fr: &FamRefs, n: usize, level: u8) -> Vec<Vec<u8>> 
 pub fn run_c15(ctx: &Ctx) -> Report {
 	let refs = Refs::new(&ctx.root);
 	let mut total = Report::new();
-	total.rule = "all ordered pairs (a, b) of URIs/IRIs built from scheme {s,t} x authority {none, '', h, g} x PATH(n) over {'' .. a b (. a:b é)} x {no query, q} x {no fragment, f}: relative_to, validity of the result, resolution of the result against b compared with a by the library's == and by the reference equivalence; non-trivial = distinct ordered pair".into();
+	total.rule = "all ordered pairs (a, b) of URIs/IRIs built from scheme {s,t} x authority {none, '', h, g} x PATH(n) over {'' .. a b (. a:b é)} x {no query, q} x {no fragment, f}, plus long paths, plus all ordered pairs of a second domain of authority spellings (u@h / u%40h, h:80 / h%3A80, [::1] / %5B%3A%3A1%5D, h / H / %68, s / S): relative_to, validity of the result, resolution of the result against b compared with a by the library's == and by the reference equivalence; non-trivial = distinct ordered pair".into();
 	let (n, level) = ctx.pick((2usize, 0u8), (3usize, 1u8));
-	for f in Family::BOTH {
+	for f in Family::active() {
 		let fr = FamRefs::new(refs, f);
 		let mut dom = iri_domain(f, &fr, n, level);
 		// beyond the 16-segment inline buffers (relative_to and the normalised-segment iterator)
@@ -57,6 +57,22 @@ pub fn run_c15(ctx: &Ctx) -> Report {
 			dom.extend(iri_domain(f, &fr, 2, 2).into_iter().filter(|t| !known.contains(t)));
 		}
 		total.count(&format!("{}_values", f.name()), dom.len() as u64);
+		// second domain, all ordered pairs again: authorities that differ as components but not as
+		// decoded text (u@h / u%40h, h:80 / h%3A80, [::1] / %5B%3A%3A1%5D), host and scheme case
+		let o = |x: &[&str]| -> Vec<Option<Vec<u8>>> { x.iter().map(|s| Some(domains::b(s))).collect() };
+		let dom2: Vec<Vec<u8>> = domains::references(
+			&o(&["s", "S"]),
+			&o(&["h", "H", "u@h", "u%40h", "h:80", "h%3A80", "[::1]", "%5B%3A%3A1%5D", "%68"]),
+			&["", "/", "/a", "/a/b", "/b"].iter().map(|s| domains::b(s)).collect::<Vec<_>>(),
+			&[None, Some(domains::b("q"))],
+			&[None],
+		)
+		.into_iter()
+		.map(|(t, _)| t)
+		.filter(|t| fr.valid(Kind::Ri, t))
+		.collect();
+		total.count(&format!("{}_authority_spelling_values", f.name()), dom2.len() as u64);
+		for dom in [&dom, &dom2] {
 		let shards = 128usize;
 		let r = run_shards(ctx, shards, |si| {
 			let mut r = Report::new();
@@ -66,7 +82,7 @@ pub fn run_c15(ctx: &Ctx) -> Report {
 					continue;
 				}
 				r.states += 1;
-				for b in &dom {
+				for b in dom.iter() {
 					let e = by_family!(f, c15_case(a, b, &fr, &mut vs));
 					r.evaluations += e;
 					r.transitions += e;
@@ -87,6 +103,7 @@ pub fn run_c15(ctx: &Ctx) -> Report {
 			r
 		});
 		total.merge(r);
+		}
 	}
 	total.info.insert("bounds".into(), json!({"path_segments_max": n, "alphabet_level": level}));
 	total
@@ -108,7 +125,7 @@ pub fn run_c16(ctx: &Ctx) -> Report {
 	let mut total = Report::new();
 	total.rule = "Path::suffix on all ordered pairs of PATH(n) over {'' . .. a b a:b %61 %FF}; Ri/RiRef::suffix on all ordered pairs of a reference domain with equal/different scheme and authority (incl. percent-encoded spellings); base() on every valid reference of RAW(7) and of the reference domain; non-trivial = distinct ordered pair / distinct text".into();
 	let n = ctx.pick(3usize, 4usize);
-	for f in Family::BOTH {
+	for f in Family::active() {
 		let fr = FamRefs::new(refs, f);
 		let dpath = refs.dfa(f, Kind::Path);
 		// "x%62" / "X%62": differ only in the case of a letter outside the %XX triplet
@@ -145,8 +162,9 @@ pub fn run_c16(ctx: &Ctx) -> Report {
 		});
 		total.merge(r);
 		// reference pairs
-		let schemes = vec![None, Some(domains::b("s")), Some(domains::b("t"))];
-		let auths = vec![None, Some(domains::b("")), Some(domains::b("h")), Some(domains::b("%68")), Some(domains::b("g"))];
+		// "S": a scheme that differs from "s" by case only (schemes are compared literally)
+		let schemes = vec![None, Some(domains::b("s")), Some(domains::b("S")), Some(domains::b("t"))];
+		let auths = vec![None, Some(domains::b("")), Some(domains::b("h")), Some(domains::b("%68")), Some(domains::b("g")), Some(domains::b("u@h")), Some(domains::b("u%40h"))];
 		let rpaths: Vec<Vec<u8>> = ["", "/", "/a", "/a/", "/a/b", "/a/./b/c", "/%61/b", "a", "a/b", "/a//b", "//a", "/.//a", "a:b", "./a:b", "/b"].iter().map(|s| domains::b(s)).collect();
 		let dom: Vec<Vec<u8>> = domains::references(&schemes, &auths, &rpaths, &[None, Some(domains::b("q"))], &[None, Some(domains::b("f"))])
 			.into_iter()
